@@ -57,6 +57,28 @@ theorem hint_bits_are_distinct :
 
 open CdnsVerif.Spec.Cbor CdnsVerif.Model CdnsVerif.Model.Decoder CdnsVerif.Model.Schema CdnsVerif.Model.Structs CdnsVerif.Model.File
 
+/-- **The block schemas are what the source does** (translator T3, regenerated on every run by running the working tree's own
+    `write`/`read` functions of the twelve item and table-entry structs): keys, order, kind and width of every member as
+    written, the width the reader keeps, and the members the reader insists on. -/
+theorem block_schemas_match_source :
+    sourceRows "ClassType" = some (rowsOf classType) ∧
+    sourceRows "QueryResponseSignature" = some (rowsOf queryResponseSignature) ∧
+    sourceRows "Question" = some (rowsOf question) ∧
+    sourceRows "RR" = some (rowsOf rr) ∧
+    sourceRows "MalformedMessageData" = some (rowsOf malformedMessageData) ∧
+    sourceRows "ResponseProcessingData" = some (rowsOf responseProcessingData) ∧
+    sourceRows "QueryResponseExtended" = some (rowsOf queryResponseExtended) ∧
+    sourceRows "BlockPreamble" = some (rowsOf blockPreamble) ∧
+    sourceRows "BlockStatistics" = some (rowsOf blockStatistics) ∧
+    sourceRows "QueryResponse" = some (rowsOf queryResponse) ∧
+    sourceRows "AddressEventCount" = some (rowsOf addressEventCount) ∧
+    sourceRows "MalformedMessage" = some (rowsOf malformedMessage) ∧
+    (["ClassType", "QueryResponseSignature", "Question", "RR", "MalformedMessageData", "ResponseProcessingData",
+      "QueryResponseExtended", "BlockPreamble", "BlockStatistics", "QueryResponse", "AddressEventCount",
+      "MalformedMessage"].all readerWidthsAgree) = true := by
+  repeat' apply And.intro
+  all_goals decide +kernel
+
 /-- one block: every conforming block value survives write → read unchanged -/
 theorem block_roundtrip (v : Val) (hc : Conforms block v) (rest : Bytes) :
     (readVal (need v) block).run (writeBytes block v ++ rest) = .ok (v, rest) :=
